@@ -92,6 +92,69 @@ theorem C14_persist {U : Type} (law : ExtLaw U K) (v x : K) :
   intro rows i j hw hc
   simp only [extFromFile, selectCols_ok i j rows _ _ hw hc]
 
+/-- **C14 (end nodes).** A query exactly on the first or on the last tabulated wavelength is inside the
+    table: the interpolated opacity is the node's own value — never the outside fill 0 — for every
+    increasing table with at least two rows; so the pattern there is `−0.4·chi_end/chi(V)`, and it is
+    exactly `−0.4` when V itself is the first or the last node. -/
+theorem C14_end_nodes (p0 p1 : K × K) (tl : List (K × K)) (v : K) (hs : SortedX (p0 :: p1 :: tl)) :
+    npInterp 0 0 (p0 :: p1 :: tl) p0.1 = p0.2 ∧
+    npInterp 0 0 (p0 :: p1 :: tl) (lastD (p1 :: tl) p0).1 = (lastD (p1 :: tl) p0).2 ∧
+    getAv (p0 :: p1 :: tl) v p0.1 = -(2 / 5) * p0.2 / npInterpEdge (p0 :: p1 :: tl) v ∧
+    getAv (p0 :: p1 :: tl) v (lastD (p1 :: tl) p0).1
+      = -(2 / 5) * (lastD (p1 :: tl) p0).2 / npInterpEdge (p0 :: p1 :: tl) v ∧
+    (p0.2 ≠ 0 → getAv (p0 :: p1 :: tl) p0.1 p0.1 = -(2 / 5)) ∧
+    ((lastD (p1 :: tl) p0).2 ≠ 0 →
+      getAv (p0 :: p1 :: tl) (lastD (p1 :: tl) p0).1 (lastD (p1 :: tl) p0).1 = -(2 / 5)) := by
+  have hm0 : p0 ∈ p0 :: p1 :: tl := List.mem_cons_self
+  have hml : lastD (p1 :: tl) p0 ∈ p0 :: p1 :: tl := lastD_mem (p1 :: tl) p0
+  obtain ⟨a0, b0⟩ := mem_range (p1 :: tl) p0 p0 hs hm0
+  obtain ⟨al, bl⟩ := mem_range (p1 :: tl) p0 _ hs hml
+  have e0 : npInterp 0 0 (p0 :: p1 :: tl) p0.1 = p0.2 := by
+    rw [npInterp_in 0 0 p0 (p1 :: tl) p0.1 a0 b0, interpIn_node _ p0 hs hm0]
+  have el : npInterp 0 0 (p0 :: p1 :: tl) (lastD (p1 :: tl) p0).1 = (lastD (p1 :: tl) p0).2 := by
+    rw [npInterp_in 0 0 p0 (p1 :: tl) _ al bl, interpIn_node _ _ hs hml]
+  have hE : ∀ x, p0.1 ≤ x → x ≤ (lastD (p1 :: tl) p0).1 →
+      npInterpEdge (p0 :: p1 :: tl) x = interpIn (p0 :: p1 :: tl) x := by
+    intro x h0 h1
+    show npInterp p0.2 (lastD (p0 :: p1 :: tl) p0).2 (p0 :: p1 :: tl) x = _
+    exact npInterp_in _ _ p0 (p1 :: tl) x h0 h1
+  refine ⟨e0, el, C14_node p0 (p1 :: tl) v p0 hs hm0, C14_node p0 (p1 :: tl) v _ hs hml, ?_, ?_⟩
+  · intro hne
+    apply C14_at_V p0 (p1 :: tl) p0.1 a0 b0
+    rw [hE p0.1 a0 b0, interpIn_node _ p0 hs hm0]; exact hne
+  · intro hne
+    apply C14_at_V p0 (p1 :: tl) _ al bl
+    rw [hE _ al bl, interpIn_node _ _ hs hml]; exact hne
+
+/-- **C14 (copies are independent objects).** A copy (`copy.copy`, `copy.deepcopy`, pickle round trip) or
+    a table round trip of law `i` is a new object holding the same law (hence the same `get_av`); a later
+    assignment of `chi` or `wav` to the copy leaves the original as it was, and a later assignment to
+    the original leaves the copy as it was. -/
+theorem C14_copy_independent {U : Type} (h : List (ExtLaw U K)) (i : Nat) (hi : i < h.length)
+    (c w : QCol U K) :
+    (heapCopy h i)[h.length]? = h[i]? ∧ (heapViaTable h i)[h.length]? = h[i]? ∧
+    (heapCopy h i)[i]? = h[i]? ∧
+    (heapSetChi (heapCopy h i) h.length c)[i]? = h[i]? ∧
+    (heapSetWav (heapCopy h i) h.length w)[i]? = h[i]? ∧
+    (heapSetChi (heapCopy h i) i c)[h.length]? = h[i]? ∧
+    (heapSetWav (heapCopy h i) i w)[h.length]? = h[i]? ∧
+    (heapSetChi (heapCopy h i) h.length c)[h.length]? = (h[i]?).map (fun law => { law with chi := c }) := by
+  have hget : h[i]? = some h[i] := List.getElem?_eq_getElem hi
+  have hne : i ≠ h.length := Nat.ne_of_lt hi
+  have hcopy : heapCopy h i = h ++ [h[i]] := by simp [heapCopy, hget, extSetState, extGetState]
+  have htab : heapViaTable h i = h ++ [h[i]] := by simp [heapViaTable, hget, extFromTable, extToTable]
+  have hnew : (h ++ [h[i]])[h.length]? = some h[i] := by simp
+  have hold : (h ++ [h[i]])[i]? = some h[i] := by rw [List.getElem?_append_left hi]; exact hget
+  refine ⟨?_, ?_, ?_, ?_, ?_, ?_, ?_, ?_⟩
+  · rw [hcopy, hnew, hget]
+  · rw [htab, hnew, hget]
+  · rw [hcopy, hold, hget]
+  · rw [hcopy]; simp only [heapSetChi, hnew]; rw [List.getElem?_set_ne (Ne.symm hne), hold, hget]
+  · rw [hcopy]; simp only [heapSetWav, hnew]; rw [List.getElem?_set_ne (Ne.symm hne), hold, hget]
+  · rw [hcopy]; simp only [heapSetChi, hold]; rw [List.getElem?_set_ne hne, hnew, hget]
+  · rw [hcopy]; simp only [heapSetWav, hold]; rw [List.getElem?_set_ne hne, hnew, hget]
+  · rw [hcopy]; simp only [heapSetChi, hnew]; rw [hget]; simp
+
 /-! ### Non-vacuity (over ℚ): a four-row table in µm covering V = 11/20 -/
 
 def exLaw : List (Rat × Rat) := [(1/10, 900), (1/2, 400), (1, 150), (10, 3)]
@@ -114,5 +177,16 @@ example : extFromFile (K := Rat) [[900, 7, 100], [400, 7, 500], [150, 7, 1000]] 
     = .ok ⟨⟨"nm", [100, 500, 1000]⟩, ⟨"m2/kg", [900, 400, 150]⟩⟩
     ∧ extFromFile (K := Rat) (U := String) [[900, 7, 100], [400, 7]] 2 0 "nm" "m2/kg" = .error .missingColumn := by
   constructor <;> simp [extFromFile, selectCols]
+
+-- end nodes of the four-row table: 0.1 and 10 micron give the tabulated 900 and 3 over chi(V) = 375
+example : getAv exLaw (11/20) (1/10) = -(24/25) ∧ getAv exLaw (11/20) 10 = -(2/625)
+    ∧ getAv [(11/20, 400), (1, 150)] (11/20) (11/20) = -(2/5) ∧ getAv [(1/10, 900), (11/20, 400)] (11/20) (11/20) = -(2/5) := by
+  simp [exLaw, getAv, negPt4, npInterpEdge, npInterp, interpIn, lastD, lin, two]
+  norm_num
+
+-- two law objects: the copy of law 0 is object 1; assigning another chi to the copy leaves object 0 alone
+example : (heapSetChi (heapCopy [(⟨⟨"nm", [100, 500]⟩, ⟨"m2/kg", [9, 4]⟩⟩ : ExtLaw String Rat)] 0) 1 ⟨"cm2/g", [1, 2]⟩)
+    = [⟨⟨"nm", [100, 500]⟩, ⟨"m2/kg", [9, 4]⟩⟩, ⟨⟨"nm", [100, 500]⟩, ⟨"cm2/g", [1, 2]⟩⟩] := by
+  simp [heapSetChi, heapCopy, extSetState, extGetState]
 
 end SF
